@@ -1,9 +1,26 @@
 import SwayVerif.Driver.Util
-/-! Driver for C15 (stub — replace `answer`; keep `run`). -/
+/-!
+Driver for C15. Case: `build <package> <profile> ;; <digests of run 1> <digests of run 2> …` where each
+digest token is `ok:<bytecode>:<abi>:<storage>:<len>` or `err:<hash of message>` from a FRESH process.
+The model of a deterministic build is a function of the package, so all runs must report the same token.
+-/
 namespace SwayVerif.Driver.C15
 open SwayVerif.Driver
 
-def answer (_line : String) : String := "unimplemented agree=0 prop=0"
+def allEq : List String → Bool
+  | [] => true
+  | x :: xs => xs.all (· = x)
+
+def answer (line : String) : String :=
+  let (c, i) := splitCase line
+  match c with
+  | ["build", _, _] =>
+    let same := allEq i
+    let kind := match i with
+      | t :: _ => if t.startsWith "ok:" then "ok" else if t.startsWith "err:" then "err" else "other"
+      | [] => "none"
+    s!"deterministic agree={b01 same} prop={b01 (same && i.length ≥ 2)} kind={kind} runs={i.length}"
+  | _ => "bad-op agree=0 prop=0"
 
 def run : IO Unit := do
   lineLoop (← IO.getStdin) (← IO.getStdout) answer
